@@ -170,9 +170,13 @@ def _loader_class(L):
 
         def construct_loading_tasks(self, output_shape=None, backend=None):
             out = []
+            # the image has the shape that was asked for (default (1, 1, 1): one voxel per molecule); every voxel holds the molecule's value
+            shp = (1, 1, 1) if (output_shape is None or tuple(self._output_shape) == (1, 1, 1)) else tuple(int(v) for v in output_shape)
+            self.asked_shapes = getattr(self, "asked_shapes", []) + [output_shape]
             for row in self._mol.features["row"].to_list():
-                a = SymArray(shape=(1, 1, 1))
-                a[0, 0, 0] = self._vals[row]
+                a = SymArray(shape=shp)
+                for idx in np.ndindex(shp):
+                    a[idx] = self._vals[row]
                 out.append(a)
             return out
 
@@ -378,6 +382,63 @@ def sec_seed(rec, patches=None):
             rec.fact(f"seed[n={n}]/path{pi}/both-non-empty", bool(a0.any() and a1.any()), key="C09/splitter/empty-half", detail={"ind0": a0.tolist()})
             rec.fact(f"seed[n={n}]/path{pi}/same-seed-same-split", bool(np.array_equal(a0, b0) and np.array_equal(a1, b1)), key="C09/splitter/not-reproducible", detail={})
             rec.fact(f"seed[n={n}]/path{pi}/second-set-draws-new-picks", used == 2 * (n // 2), key="C09/splitter/stream", detail={"picks_used": used})
+
+
+def replay_group_shapes(cex):
+    """installed library: a LoaderGroup of loaders with different default output shapes, averaged with output_shape=None: each group has its own loader's shape and average"""
+    with load.real_modules():
+        from acryo import SubtomogramLoader, Molecules
+        from acryo.loader._group import LoaderGroup
+
+        rng = np.random.default_rng(0)
+        tomo = rng.normal(size=(24, 24, 24)).astype(np.float32)
+        la = SubtomogramLoader(tomo, Molecules(rng.uniform(8, 15, size=(3, 3))), order=1, output_shape=(4, 4, 4))
+        lb = SubtomogramLoader(tomo, Molecules(rng.uniform(8, 15, size=(4, 3))), order=1, output_shape=(6, 5, 4))
+        bad = {}
+        try:
+            avg = LoaderGroup([("a", la), ("b", lb)]).average()
+            for k, ld in (("a", la), ("b", lb)):
+                want = ld.average()
+                if tuple(avg[k].shape) != tuple(want.shape) or not np.allclose(avg[k], want, atol=1e-5):
+                    bad[k] = {"group_average_shape": list(avg[k].shape), "own_loader_average_shape": list(want.shape)}
+        except Exception as e:
+            bad["raised"] = repr(e)[:160]
+        return len(bad) > 0, {"problems": bad}
+
+
+def sec_group_shapes(rec, patches=None):
+    """a LoaderGroup assembled from loaders with different default output shapes, output_shape=None: every group is averaged with its own loader's shape"""
+    L = _load(patches)
+    SL = _loader_class(L)
+    G = L["acryo.loader._group"]
+    rec.encodes("acryo/loader/_group.py:LoaderGroup.average (per-loader default shape)", "acryo/loader/_group.py:LoaderGroup.average_split (per-loader default shape)")
+    API = L["acryo.backend._api"]
+    xp = stubs.make_backend(API, API.np, None)
+    G.Backend = lambda *a, **k: xp
+    L["acryo.loader._base"].Backend = lambda *a, **k: xp
+    va = [real(f"a{i}") for i in range(2)]
+    vb = [real(f"b{i}") for i in range(3)]
+    with L.installed():
+        def run():
+            la, lb = SL(_mk(L, 2), va, shape=(1, 1, 2)), SL(_mk(L, 3), vb, shape=(1, 2, 1))
+            grp = G.LoaderGroup([("a", la), ("b", lb)])
+            return grp.average(), la.asked_shapes, lb.asked_shapes
+
+        for pi, pth in enumerate(explore(run, max_paths=40)):
+            if not pth.ok:
+                ok, det = replay_group_shapes({})
+                rec.fact(f"group-shapes/path{pi}/runs", False, key="C09/group/raises", detail={"exc": repr(pth.exc)[:300], **det}, reproduced=ok)
+                continue
+            avg, aa, ab = pth.result
+            for k, vals_, shp in (("a", va, (1, 1, 2)), ("b", vb, (1, 2, 1))):
+                got = tuple(np.shape(avg[k]))
+                oks = got == shp
+                okr, det = (True, {}) if oks else replay_group_shapes({})
+                rec.fact(f"group-shapes/path{pi}/average[{k}] has its own loader's default shape", oks, key="C09/group/own-shape", detail={"got": list(got), "want": list(shp), **det}, reproduced=okr)
+                if oks:
+                    want = sum((v.e for v in vals_), z3.RealVal(0)) / len(vals_)
+                    rec.query(f"group-shapes/path{pi}/average[{k}]=mean-of-its-own-molecules", [pth.condition()], z3.And(*[zr(x) == want for x in _obj(avg[k]).reshape(-1)]), key="C09/group/average", twin=False,
+                              replay=replay_group_shapes)
 
 
 def sec_group(rec, patches=None):
@@ -661,7 +722,7 @@ def sec_reuse(rec, patches=None):
 
 
 def sections(tier):
-    S = [("seed", "checks.c09", "sec_seed", {}), ("group", "checks.c09", "sec_group", {}), ("batch-average", "checks.c09", "sec_batch_average", {}), ("loader-reuse", "checks.c09", "sec_reuse", {}), ("batch-registry", "checks.c09", "sec_batch_registry", {})]
+    S = [("seed", "checks.c09", "sec_seed", {}), ("group", "checks.c09", "sec_group", {}), ("group-shapes", "checks.c09", "sec_group_shapes", {}), ("batch-average", "checks.c09", "sec_batch_average", {}), ("loader-reuse", "checks.c09", "sec_reuse", {}), ("batch-registry", "checks.c09", "sec_batch_registry", {})]
     for n in (1, 2, 3, 5):
         S.append((f"average-{n}", "checks.c09", "sec_average", {"n": n}))
     for n in (2, 3, 4) if quick(tier) else (2, 3, 4, 5, 6):
@@ -698,7 +759,7 @@ def run(tier, procs=None, only=None):
 
 
 # every real-library oracle of this property (each returns (reproduced, detail)); used to confirm structural facts that carry no replay of their own
-ALL_REPLAYS = [lambda c: replay_split(4)(c), lambda c: replay_split(3, 2)(c), replay_batch, replay_reuse, replay_chunked_average, replay_group_split]
+ALL_REPLAYS = [replay_group_shapes, lambda c: replay_split(4)(c), lambda c: replay_split(3, 2)(c), replay_batch, replay_reuse, replay_chunked_average, replay_group_split]
 
 
 def replay(data):
